@@ -215,8 +215,27 @@ fn run_cli(f: &[&str]) -> String {
     out.join(" | ")
 }
 
+/// KNOWN FINDING F-12b probe: with AuthenticatedLength the size field of the first chunk of BOTH directions is sealed
+/// under the same key and nonce: for equal chunk sizes the two 18-byte size fields are byte-identical
+fn run_authlen(f: &[&str]) -> String {
+    let opt: u8 = f[1].parse().unwrap();
+    let sec: u8 = f[2].parse().unwrap();
+    let sess = unhex(f[3]);
+    let payload = unhex(f[4]);
+    let hd = header(opt, sec, 1, parse_addr("4:7f000001:1"), [0; 16]);
+    let mut cs = ClientSession::from(&sess[..]);
+    let mut ss: ServerSession = cs.clone().into();
+    let mut ce = AEADBodyCodec::new_encoder(&hd, &mut cs).unwrap();
+    let mut se = AEADBodyCodec::new_encoder(&hd, &mut ss).unwrap();
+    let (mut c, mut s) = (BytesMut::new(), BytesMut::new());
+    ce.encode_payload(BytesMut::from(&payload[..]), &mut c, &mut cs).unwrap();
+    se.encode_payload(BytesMut::from(&payload[..]), &mut s, &mut ss).unwrap();
+    if c.len() >= 18 && c[..18] == s[..18] { format!("SAME {}", hex(&c[..18])) } else { "DIFF".into() }
+}
+
 pub fn exec(f: &[&str]) -> Vec<String> {
     let r = catch(|| match f[0] {
+        "vmauthlen" => run_authlen(f),
         "vmbody" => run_body(f),
         "vmsrv" => run_srv(f),
         "vmcli" => run_cli(f),
